@@ -301,6 +301,25 @@ def run(out, tier):
             pairs.append(("mut:swap-two-file-contents", i, add(sw2)))
         ed = copy.deepcopy(big); ed["files"][paths[nin - 1]] = "edited"
         pairs.append(("mut:content", i, add(ed)))
+    # a file whose content IS the printed digest of another content (of any size: below, at and above the sizes where an
+    # implementation might treat "small" files differently): the two states must differ under every algorithm
+    try:
+        h0 = vlib.build_harness("hashkey")
+        specials = [b"", b"x", b"a" * 31, b"b" * 64, b"c" * 511, b"d" * 512, b"e" * 513, b"f" * 600, b"g" * 4096, b"h" * 70000]
+        specials = [c.decode("latin-1") for c in specials]
+        rc, res, err = vlib.run_lines(h0, ["hash\t%s\t%s" % (algo, hx(c)) for algo in ALGOS for c in specials])
+        if rc == 0 and len(res) == len(ALGOS) * len(specials):
+            for k, algo in enumerate(ALGOS):
+                for x, c in enumerate(specials):
+                    d = res[k * len(specials) + x].split("\t")[1]
+                    a = {"pkg": "p", "name": "t", "cmd": "c", "ins": ["data.txt"], "files": {"data.txt": c},
+                         "outs": [("file", "o")], "deps": [], "fp": {}, "multi": False}
+                    b = copy.deepcopy(a); b["files"]["data.txt"] = d
+                    pairs.append(("mut:content-is-digest-of-other(%s,%d bytes)" % (algo, len(c)), add(a), add(b)))
+                    b2 = copy.deepcopy(a); b2["files"]["data.txt"] = d.upper()
+                    pairs.append(("mut:content-is-digest-of-other(%s,%d bytes,upper)" % (algo, len(c)), add(a), add(b2)))
+    except vlib.HarnessUnavailable:
+        pass
     # tiny-domain random pairs: chance collisions between independently drawn states
     tiny = []
     for _ in range(nstates // 2):
@@ -393,11 +412,14 @@ def run(out, tier):
                 # C09_injective: with an injective digest, states that are not the same build state never share a key.  A pair that
                 # shares its key under BOTH digest functions is an encoding collision (no class of them is tolerated any more:
                 # the former classes C09-F1..F4 are fixed and their witnesses are part of the regression pairs)
-                if eq:
+                shared = [al for x, al in enumerate(ALGOS) if ka[x] == kb[x]]
+                if shared:
+                    # (under ONE algorithm is enough: a chance collision of a 64-bit or wider digest among a few thousand pairs has
+                    # probability below 1e-12, while an encoding that depends on the digest's printed form collides under one only)
                     stats["collisions"] += 1
-                    same_streams = all(model[(al, i)] == model[(al, j)] for al in ALGOS)
-                    out.violation("different build states share one key under both algorithms (%s)%s" % (
-                        kind, "; the model predicts equal byte streams for them: model and oracle disagree" if same_streams else
+                    same_streams = all(model[(al, i)] == model[(al, j)] for al in shared)
+                    out.violation("different build states share one key under %s (%s)%s" % (
+                        "both algorithms" if len(shared) == len(ALGOS) else "algorithm " + "/".join(shared), kind, "; the model predicts equal byte streams for them: model and oracle disagree" if same_streams else
                         "; the framed byte streams the model predicts for them differ"),
                                   {"a": a, "b": b, "key": ka, "model_streams_equal": same_streams})
             if len(samples) < 3 and kind.startswith(("mut", "collision")):
